@@ -15,13 +15,103 @@ use crate::suite_forest::Session;
 use crate::tree::*;
 use xot::Node;
 
+
+/// The three views of every live element: namespace entries, attribute entries, ordinary children.
+type Views = Vec<(usize, Vec<(xot::PrefixId, xot::NamespaceId)>, Vec<(xot::NameId, String)>, Vec<Node>)>;
+
+fn views(s: &Session) -> Views {
+    s.live()
+        .iter()
+        .copied()
+        .filter(|&l| s.xot.is_element(s.nodes[l]))
+        .map(|l| {
+            let n = s.nodes[l];
+            (l, s.xot.namespaces(n).to_vec(), s.xot.attributes(n).to_vec(), s.xot.children(n).collect())
+        })
+        .collect()
+}
+
+/// Number of entries in which two entry lists differ when one is the other with a single entry
+/// added, removed or given another value; 2 = more than that.
+fn touched<T: PartialEq>(a: &[T], b: &[T]) -> usize {
+    if a == b {
+        return 0;
+    }
+    let (short, long) = if a.len() <= b.len() { (a, b) } else { (b, a) };
+    if long.len() == short.len() + 1 {
+        for i in 0..long.len() {
+            if short[..i] == long[..i] && short[i..] == long[i + 1..] {
+                return 1;
+            }
+        }
+        return 2;
+    }
+    if a.len() == b.len() {
+        return if a.iter().zip(b.iter()).filter(|(x, y)| x != y).count() == 1 { 1 } else { 2 };
+    }
+    2
+}
+
+/// Is `req` an update of one attribute / namespace entry?  Returns how many entries it may touch
+/// (moving an ATTACHED attribute or namespace node with any_append touches two: one leaves its
+/// element, one arrives).
+fn entry_update(s: &Session, req: &str) -> Option<usize> {
+    let w: Vec<&str> = req.split(' ').collect();
+    match w[0] {
+        "map_insert" | "map_remove" | "set_attribute" | "remove_attribute" | "set_namespace" | "remove_namespace"
+        | "append_namespace" | "attr_set_value" | "ns_set_ns" => Some(1),
+        "any_append" | "append_attribute_node" | "append_namespace_node" => {
+            let b: usize = w.get(2)?.parse().ok()?;
+            let n = *s.nodes.get(b)?;
+            if s.xot.is_removed(n) || !(s.xot.is_attribute_node(n) || s.xot.is_namespace_node(n)) {
+                return None;
+            }
+            Some(if s.xot.parent(n).is_some() { 2 } else { 1 })
+        }
+        _ => None,
+    }
+}
+
+/// Implementation-only oracle for "attribute / namespace updates touch exactly one entry" and "no
+/// other node is created, lost, reordered or altered": over all elements that are live before and
+/// after a successful entry update, the namespace and attribute views differ in at most the
+/// allowed number of entries and no list of ordinary children changes (seed C05e).
+fn exec_entry_checked(s: &mut Session, sink: &mut Sink, req: &str) -> String {
+    let allowed = entry_update(s, req);
+    let before = if allowed.is_some() { views(s) } else { vec![] };
+    let resp = s.exec(sink, req);
+    if let (Some(allowed), true) = (allowed, resp.starts_with("ok")) {
+        let after = views(s);
+        let mut n = 0;
+        let mut kids_changed = false;
+        for (l, ns_b, at_b, ch_b) in &before {
+            if let Some((_, ns_a, at_a, ch_a)) = after.iter().find(|v| v.0 == *l) {
+                n += touched(ns_b, ns_a) + touched(at_b, at_a);
+                kids_changed |= ch_b != ch_a;
+            }
+        }
+        if n > allowed || kids_changed {
+            let op = req.split(' ').next().unwrap();
+            sink.fail(
+                "C05",
+                &format!("C05:{}-touches-more-than-one-entry", op),
+                &format!("{}: the attribute / namespace views of the live elements differ in {} entries afterwards (at most {} may){}", req, n, allowed, if kids_changed { "; a list of ordinary children changed" } else { "" }),
+                &s.history,
+            );
+        } else {
+            sink.stat("oracle.entry-update-touches-one-entry");
+        }
+    }
+    resp
+}
+
 /// Emit the requests that build `t` (creation + any_append), returns the root's label.
 fn build_ops(s: &mut Session, sink: &mut Sink, t: &GTree) -> usize {
     let r = s.exec(sink, &format!("new {}", GTree::leaf(t.v.clone()).wire()));
     let root: usize = r[3..].parse().unwrap();
     for k in &t.kids {
         let kl = build_ops(s, sink, k);
-        s.exec(sink, &format!("any_append {} {}", root, kl));
+        exec_entry_checked(s, sink, &format!("any_append {} {}", root, kl));
     }
     root
 }
@@ -181,7 +271,7 @@ fn step(s: &mut Session, sink: &mut Sink, op: &str, req: &str, x: usize, y: usiz
         sink.stat(&format!("creation.{}", k));
     }
     let mark = sink.lines.len();
-    let resp = s.exec(sink, req);
+    let resp = exec_entry_checked(s, sink, req);
     sink.stat(&format!("resp.{}", resp.split(' ').next().unwrap()));
     if resp == "panic" {
         return false;
